@@ -24,9 +24,14 @@ git -C /repo worktree remove --force $WT
 D=/verif/seeded/$P-$J
 mkdir -p $D
 cp $SRC/patch$I.diff $D/patch.diff; cp $SRC/demo$I.py $D/demo.py
+if [ "${NOCHECK:-0}" = 1 ]; then
+  # the check is run afterwards by tools/par_recheck.py (which does not touch /repo); it fills in confirmed.check_exit
+  echo "check deferred" > /tmp/confirm.check; CR=None
+else
 git -C /repo apply $D/patch.diff && ( cd /verif && VERIF_EVIDENCE_DIR=/tmp/verif_seed_evidence bin/check $CP --tier quick > /tmp/confirm.check 2>&1 ); CR=$?
 git -C /repo checkout -- .
 tail -2 /tmp/confirm.check
+fi
 /venv/bin/python - <<PY
 import json
 m=json.load(open('$SRC/meta$I.json'))
